@@ -76,6 +76,10 @@ type Enc struct {
 	initUnit      bool
 	preserved     []modTarget // state preserved across unbounded-frame calls (kind loc or elems)
 	deferredPres  []deferredPreserve
+	curCall       *ssa.CallCommon // the call being encoded (for modifies targets resolved at the call site)
+	absRecv       Val             // refinement check: the receiver whose interface-level ghost fields are abstracted
+	absRecvBoxed  Val             // the same receiver as reached through the interface value (payload of the boxed receiver)
+	absType       string          // its type as written in the abstracts declarations' package (resolved type string)
 	revealed      map[string]bool
 	revealDone    map[string]bool
 	epochCounter  int
@@ -1002,4 +1006,25 @@ func (e *Enc) merge(edges []edgeState, label string) *State {
 		}
 	}
 	return out
+}
+
+// abstractionFor returns the abstraction of ghost field `field` when loc is the receiver of the
+// method being checked against an interface contract.
+func (e *Enc) abstractionFor(field string, loc Val) *Abstraction {
+	if e.absRecv.T == "" || (loc.T != e.absRecv.T && loc.T != e.absRecvBoxed.T) {
+		return nil
+	}
+	for _, ab := range e.P.CS.Abstractions {
+		if ab.Field != field {
+			continue
+		}
+		t, _, err := (&EvalCtx{e: e, spec: ab.Spec}).resolveType(ab.OnType)
+		if err != nil || t == nil {
+			continue
+		}
+		if t.String() == e.absType {
+			return ab
+		}
+	}
+	return nil
 }
